@@ -164,10 +164,12 @@ def eval (ρ : Env) : IExpr → Option CVal
       if ρ.unsafeIdx then
         (if 0 ≤ iv.v && iv.v < ρ.size i then ρ.byteAt i iv.v.toNat else none)
       else
-        -- `(((i) >= 0 && (i) < N) ? s[i] : 0)`: the index is evaluated up to three times, with
-        -- the same value; the conditional operator's type is the promoted element type ∨ int
-        if 0 ≤ (CTy.usual iv.ty CTy.i32).wrap iv.v && (CTy.usual iv.ty CTy.i32).wrap iv.v < ρ.size i then
-          (match ρ.byteAt i iv.v.toNat with
+        -- `(((i) >= 0 && (i) < len) ? s[i] : 0)` with `len` the current length counter: the index is
+        -- evaluated up to three times, with the same value; the conditional operator's type is the
+        -- promoted element type ∨ int
+        if 0 ≤ (CTy.usual iv.ty CTy.i32).wrap iv.v && (CTy.usual iv.ty CTy.i32).wrap iv.v < (ρ.lenVal i).v then
+          -- (the three occurrences of the index have one value; it is the one that was compared)
+          (match ρ.byteAt i ((CTy.usual iv.ty CTy.i32).wrap iv.v).toNat with
            | none => none
            | some b => some ⟨CTy.i32, b.v⟩)
         else some ⟨CTy.i32, 0⟩
